@@ -645,6 +645,45 @@ def _self_reads(node, base='self') -> Set[str]:
             and n.value.id == base and isinstance(n.ctx, ast.Load)}
 
 
+def _eq_conjuncts(fn_node):
+    """The terms an __eq__ requires to hold: the conjuncts of its returned
+    and-chain, plus the terms of `if not <term>: return False` guards (the
+    guard-clause spelling of the same chain)."""
+    out = []
+    for st in fn_node.body:
+        if isinstance(st, ast.If) and not st.orelse and \
+                len(st.body) == 1 and isinstance(st.body[0], ast.Return) and \
+                isinstance(st.body[0].value, ast.Constant) and \
+                st.body[0].value.value is False:
+            t = st.test
+            if isinstance(t, ast.UnaryOp) and isinstance(t.op, ast.Not):
+                t = t.operand
+                out += t.values if isinstance(t, ast.BoolOp) and \
+                    isinstance(t.op, ast.And) else [t]
+            elif isinstance(t, ast.Compare) and len(t.ops) == 1 and \
+                    isinstance(t.ops[0], (ast.NotEq, ast.IsNot)):
+                op = ast.Eq() if isinstance(t.ops[0], ast.NotEq) else ast.Is()
+                out.append(ast.Compare(left=t.left, ops=[op],
+                                       comparators=t.comparators))
+            elif isinstance(t, ast.BoolOp) and isinstance(t.op, ast.Or):
+                # if a or b: return False  ==  not a and not b
+                for v in t.values:
+                    if isinstance(v, ast.UnaryOp) and isinstance(v.op,
+                                                                 ast.Not):
+                        out.append(v.operand)
+                    else:
+                        out.append(ast.UnaryOp(op=ast.Not(), operand=v))
+            else:
+                out.append(ast.UnaryOp(op=ast.Not(), operand=t))
+        elif isinstance(st, ast.Return) and st.value is not None:
+            v = st.value
+            if isinstance(v, ast.Constant) and v.value is True:
+                continue
+            out += v.values if isinstance(v, ast.BoolOp) and \
+                isinstance(v.op, ast.And) else [v]
+    return out
+
+
 def r6_hash_agrees_with_eq(ctx):
     """Objects that compare equal must hash equal (they are compared through
     set(...) in ModelSignature.__eq__): __hash__ may only depend on state
@@ -681,11 +720,7 @@ def r6_hash_agrees_with_eq(ctx):
                         call.func.attr == '__hash__')):
                 reads.add('<identity>')
         exact, loose, seq_exact = set(), set(), set()
-        rets = [r for r in walk_no_nested(eq.node)
-                if isinstance(r, ast.Return) and r.value is not None]
-        for r in rets:
-            conj = r.value.values if isinstance(r.value, ast.BoolOp) and \
-                isinstance(r.value.op, ast.And) else [r.value]
+        for conj in [_eq_conjuncts(eq.node)]:
             for v in conj:
                 if isinstance(v, ast.Compare) and len(v.ops) == 1 and \
                         isinstance(v.ops[0], (ast.Eq, ast.Is)) and \
